@@ -18,7 +18,9 @@ from . import sym
 from . import theory
 
 VERIF = os.path.dirname(os.path.dirname(os.path.abspath(__file__)))
-REPO_SRC = "/repo/src/pygom"
+# PGV_REPO: debugging aid to aim the checks at a scratch worktree (seeded-change experiments); the registered
+# commands never set it and therefore always analyse /repo itself
+REPO_SRC = os.path.join(os.environ.get("PGV_REPO", "/repo"), "src/pygom")
 
 EXIT_OK, EXIT_VIOLATION, EXIT_INCONCLUSIVE = 0, 1, 2
 
@@ -364,8 +366,9 @@ def run_check(check, tier, seed, jobs=None, only=None):
     ev = {"property_id": check.id, "tier": tier, "seed": int(seed), "level": check.level,
           "coverage": cov, "assumptions": check.assumptions, "wall_s": wall,
           "violations": len(violations)}
-    os.makedirs(os.path.join(VERIF, "evidence"), exist_ok=True)
-    with open(os.path.join(VERIF, "evidence", check.id + ".json"), "w") as f:
+    evdir = os.environ.get("PGV_EVIDENCE_DIR") or os.path.join(VERIF, "evidence")   # (seed experiments write elsewhere)
+    os.makedirs(evdir, exist_ok=True)
+    with open(os.path.join(evdir, check.id + ".json"), "w") as f:
         json.dump(ev, f, indent=1, sort_keys=True, default=str)
 
     for l in lines:
